@@ -87,3 +87,37 @@ contract(T4 + 'Type4BTag.__init__', 'C12',
                             'if target.sensb_res[11] // 16 <= 14 else 4)'),
                   ('O-bn.init', 'self._dep.pni == 0')],
          raises={})
+
+# one instance of "a lost or corrupted block the recovery rules can absorb": single-block command, the first
+# attempt fails; the PCD sends R(NAK) (interface obligation of the scripted link), the card retransmits its
+# response, and exactly that response is returned - once
+contract(T4 + 'IsoDepInitiator.exchange', 'C12',
+         dict(self=Obj(T4 + 'IsoDepInitiator', miu=10, pni=Int(0, 1), fwt=Const(0.01), delta_fwt=Const(0.0036),
+                       n_retry_ack=Int(1, 5), n_retry_nak=Int(1, 5),
+                       clf=Obj('models.clf_models:IsoScriptClf', _partial=False, kind=Int(1, 2), pni=Ref('self.pni'),
+                               payload=Bytes(0, None, mutable=True), n=0)),
+              command=Bytes(1, 10, mutable=True), timeout=None),
+         name='C12/IsoDep.recovers-one-fault',
+         ensures=[('O-recover.response', 'result == self.clf.payload'),
+                  ('O-recover.bn', 'self.pni == 1 - old(self.pni)'), ('O-recover.once', 'self.clf.n == 2')],
+         raises={}, max_unroll=12)
+contract(T4 + 'IsoDepInitiator.exchange', 'C12',
+         dict(self=Obj(T4 + 'IsoDepInitiator', miu=10, pni=Int(0, 1), fwt=Const(0.01), delta_fwt=Const(0.0036),
+                       n_retry_ack=Int(1, 5), n_retry_nak=Int(1, 5),
+                       clf=Obj('models.clf_models:IsoChainScriptClf', _partial=False, pni=Ref('self.pni'), miu=10,
+                               command=Ref('command'), payload=Bytes(0, None, mutable=True), n=0)),
+              command=Bytes(11, 20, mutable=True), timeout=None),
+         name='C12/IsoDep.recovers-lost-ack-while-chaining',
+         ensures=[('O-recover.response', 'result == self.clf.payload'),
+                  ('O-recover.bn', 'self.pni == old(self.pni)'), ('O-recover.once', 'self.clf.n == 3')],
+         raises={}, max_unroll=12)
+contract(T4 + 'IsoDepInitiator.exchange', 'C12',
+         dict(self=Obj(T4 + 'IsoDepInitiator', miu=10, pni=Int(0, 1), fwt=Const(0.01), delta_fwt=Const(0.0036),
+                       n_retry_ack=Int(1, 5), n_retry_nak=Int(1, 5),
+                       clf=Obj('models.clf_models:IsoLostBlockScriptClf', _partial=False, pni=Ref('self.pni'), miu=10,
+                               command=Ref('command'), payload=Bytes(0, None, mutable=True), n=0)),
+              command=Bytes(11, 20, mutable=True), timeout=None),
+         name='C12/IsoDep.retransmits-lost-block',
+         ensures=[('O-recover.response', 'result == self.clf.payload'),
+                  ('O-recover.bn', 'self.pni == old(self.pni)'), ('O-recover.once', 'self.clf.n == 4')],
+         raises={}, max_unroll=12)
